@@ -49,6 +49,8 @@ def check(prog: Program, rep):
     r4(prog, rep)
     r5(prog, rep)
     r6(prog, rep)
+    rep.rule("C12.R7", "bounds handed to add_variables become the bounds of the variables: scalar recognition covers numpy scalars (no silent default)", floor=1)
+    bounds_materialised(prog, rep, "C12.R7")
     rep.rule("C12.T", "helpers conform to the frozen formulation table (structure of rows, families, bounds)", floor=14)
     conformance(prog, rep, "C12.T", "C12")
 
@@ -186,6 +188,21 @@ def bit_count_sufficient(n: ast.AST, depth=0) -> (Optional[bool], str):
         if fn in ("ceil", "math.ceil") and len(n.args) == 1 and isinstance(n.args[0], ast.Call) and \
                 (dotted(n.args[0].func) or "") in ("log2", "math.log2") and len(n.args[0].args) == 1:
             E = n.args[0].args[0]
+            from rules.common import expr_cases
+            cases = list(expr_cases(E))
+            if len(cases) > 1:
+                # the sizing quantity is selected by a condition: `integer_ub` where the caller gives the bound of the integer factor
+                # (its obligation, checked at the call sites by V2), the product bound `ub` otherwise
+                verdicts = []
+                for g_, x in cases:
+                    atom_ = "integer_ub" if "integer_ub" in norm(x) else "ub"
+                    d_ = dominates(x, Poly.atom(atom_) + Poly.const(1), [atom_])
+                    verdicts.append((d_, f"{norm(x)} >= {atom_}+1" if d_ else f"{norm(x)} vs {atom_}+1"))
+                if all(v[0] is True for v in verdicts):
+                    return True, "ceil(log2(E)) with " + " / ".join(v[1] for v in verdicts)
+                if any(v[0] is False for v in verdicts):
+                    return False, "; ".join(v[1] for v in verdicts if v[0] is False) + ": at a power of two the expansion is one bit short"
+                return None, f"cannot compare the cases of {norm(E)} with their sizing quantity + 1"
             d = dominates(E, Poly.atom("ub") + Poly.const(1), ["ub"])
             if d is True:
                 return True, f"ceil(log2({norm(E)})) with {norm(E)} >= ub+1"
@@ -865,3 +882,43 @@ def r6(prog, rep):
         rep.ok("C12.R6", "SolverWrapper.get_values:one-entry-per-key", "result[key] = value of that key's variable", f.loc())
     else:
         rep.violation("C12.R6", "SolverWrapper.get_values:one-entry-per-key", "the result is not filled with exactly the value of each requested (key, variable) pair", f.loc())
+
+
+# ------------------------------------------------------------------------------------------------ R7
+NUMERIC_ABCS = {"np.number", "np.generic", "numpy.number", "numpy.generic", "numbers.Number", "numbers.Real", "Number", "Real"}
+
+
+def bounds_materialised(prog, rep, RID):
+    """add_variables normalises lb / ub with a nested helper whose last resort is the default bound (0 / 1).  A bound that is a
+    number but not an int / float instance - a numpy scalar, e.g. the maximum of flow values read with numpy - must be recognised
+    as a scalar; otherwise it is neither a dict nor iterable and the variables silently get the default bounds [0, 1]."""
+    f = prog.own_method("SolverWrapper", "add_variables")
+    helper = None
+    for st in ast.walk(f.node):
+        if isinstance(st, ast.FunctionDef) and st is not f.node and any(
+                isinstance(r, ast.Return) and "default" in norm(r.value) for r in ast.walk(st) if isinstance(r, ast.Return) and r.value is not None):
+            helper = st
+    key = "SolverWrapper.add_variables:scalar-bounds"
+    if helper is None:
+        # no default fallback at all: nothing can be replaced silently
+        rep.ok(RID, key, "bounds are never replaced by a default", f.loc())
+        return
+    param = helper.args.args[0].arg
+    scalar_types = None
+    for st in ast.walk(helper):
+        if isinstance(st, ast.If):
+            for c in ast.walk(st.test):
+                if isinstance(c, ast.Call) and dotted(c.func) == "isinstance" and len(c.args) == 2 and norm(c.args[0]) == param:
+                    tys = c.args[1].elts if isinstance(c.args[1], ast.Tuple) else [c.args[1]]
+                    names = {norm(t) for t in tys}
+                    if "float" in names or "int" in names or names & NUMERIC_ABCS:
+                        scalar_types = names
+    if scalar_types is None:
+        raise AnalysisError("add_variables: the scalar branch of the bound normalisation (isinstance test on the bound) was not found")
+    if scalar_types & NUMERIC_ABCS:
+        rep.ok(RID, key, f"scalar bounds are recognised by isinstance(..., {sorted(scalar_types)}): numpy scalars included", f.loc(helper))
+    else:
+        rep.violation(RID, key, f"a scalar bound is recognised only as {sorted(scalar_types)}; a numpy scalar (np.int64 maximum of flow values) is neither, is not "
+                      "iterable, and falls through to the default bound: all variables of the family silently get [0, 1] and the model comes back infeasible",
+                      f.loc(helper))
+
